@@ -634,6 +634,19 @@ Fixpoint pv_run (p : pv) (tr : list ev) : option pv :=
 Definition prop_violb (tr : list ev) : bool :=
   match pv_run pv_init tr with Some _ => false | None => true end.
 
+(* the same property, declaratively (the decomposition used by C20_accept_sound): the trace contains a
+   call u for k that starts with no call in flight, no call starts before it returns Ok, none after
+   that, a request q starts, and its frame arrives (q not restarted meanwhile) on a connection whose
+   acknowledged keyspace is not the canonical name of k *)
+Definition decl_viol (tr : list ev) : Prop :=
+  exists t1 u k t2 t3 q t4 x t5,
+    tr = t1 ++ ECall u k :: t2 ++ ERet u true :: t3 ++ EStart q :: t4 ++ EFrame q x :: t5 /\
+    pending_calls t1 [] = [] /\ no_call t2 = true /\ no_call t3 = true /\ no_call t4 = true /\
+    forallb (fun e => negb (starts q e)) t4 = true /\ x <> Some (canon k).
+(* call u does not return inside t (well-formed traces: a call returns once) *)
+Definition no_ret (u : nat) (t : list ev) : bool :=
+  forallb (fun e => match e with ERet u' _ => negb (Nat.eqb u' u) | _ => true end) t.
+
 (* ====================================================================================== *)
 (* 6. The whole session: cluster worker x one pool per node.                               *)
 (*    Session::use_keyspace -> ClusterWorker (use_keyspace_channel arm: used_keyspace,      *)
